@@ -14,6 +14,7 @@ import (
 	"os/exec"
 	"path/filepath"
 	"sort"
+	"strconv"
 	"strings"
 
 	"ariga.io/atlas/sql/migrate"
@@ -46,7 +47,7 @@ var hostile = map[string]string{
 	"dashend": "-- end", "semiend": "ab;", "sqsemi": "';", "qmark": "a?b", "pct": "a%sb", "brace": "a{{b}}",
 }
 
-var placements = []string{"table-name", "column-name", "index-name", "fk-name", "check-name", "default", "default-estring", "column-comment", "table-comment", "check-literal", "enum-value", "index-predicate"}
+var placements = []string{"table-name", "column-name", "index-name", "fk-name", "check-name", "default", "default-hcl", "default-dq", "default-estring", "column-comment", "table-comment", "check-literal", "enum-value", "index-predicate"}
 
 func placeKind(p string) string {
 	switch p {
@@ -70,7 +71,7 @@ type Feat struct {
 type Case struct {
 	Dialect   string `json:"dialect"`
 	Feats     []Feat `json:"feats"`
-	Scenario  string `json:"scenario"` // create | drop | modify | unmodify
+	Scenario  string `json:"scenario"` // create | drop | modify | unmodify | alter
 	Formatter string `json:"formatter"`
 	Indent    string `json:"indent"`
 	Delim     string `json:"delim"`
@@ -84,6 +85,8 @@ func applicable(d, place string) bool {
 		return d != "mysql"
 	case "default-estring":
 		return d == "postgres"
+	case "default-dq":
+		return d == "sqlite"
 	}
 	return true
 }
@@ -138,6 +141,14 @@ func build(d string, feats []Feat) *schema.Schema {
 			} else {
 				v.SetDefault(&schema.Literal{V: sqlLit(d, val)})
 			}
+		case "default-hcl":
+			// the default as the dialect's real HCL evaluation represents a string the user wrote
+			if x := hclDefault(d, val); x != nil {
+				v.SetDefault(x)
+			}
+		case "default-dq":
+			// a double-quoted literal, the third spelling the SQLite planner accepts (bare, 'single', "double")
+			v.SetDefault(&schema.Literal{V: strconv.Quote(val)})
 		case "default-estring":
 			// a raw PostgreSQL escape-string literal, as a user may write it in `sql("…")` / inspect it
 			v.SetDefault(&schema.RawExpr{X: "E'" + strings.NewReplacer(`\`, `\\`, "'", `\'`, "\n", `\n`, "\r", `\r`).Replace(val) + "'"})
@@ -168,6 +179,34 @@ func build(d string, feats []Feat) *schema.Schema {
 	}
 	s.AddTables(t1, t2)
 	return s
+}
+
+// hclDefault evaluates `default = "<val>"` on a text column through the dialect's real EvalHCLBytes
+// and returns the resulting default expression (nil when the evaluation refuses the document).
+func hclDefault(d, val string) schema.Expr {
+	typ := map[string]string{"mysql": "varchar(50)", "postgres": "varchar(50)", "sqlite": "text"}[d]
+	doc := fmt.Sprintf("schema \"app\" {}\ntable \"x\" {\n  schema = schema.app\n  column \"v\" {\n    type = %s\n    null = true\n    default = %s\n  }\n}\n", typ, hclString(val))
+	var s schema.Schema
+	var err error
+	switch d {
+	case "mysql":
+		err = mysql.EvalHCLBytes([]byte(doc), &s, nil)
+	case "postgres":
+		err = postgres.EvalHCLBytes([]byte(doc), &s, nil)
+	default:
+		err = sqlite.EvalHCLBytes([]byte(doc), &s, nil)
+	}
+	if err != nil || len(s.Tables) != 1 || len(s.Tables[0].Columns) != 1 {
+		return nil
+	}
+	return s.Tables[0].Columns[0].Default
+}
+
+// hclString renders a Go string as an HCL quoted string literal (template sequences escaped).
+func hclString(v string) string {
+	q := strconv.Quote(v)
+	q = strings.ReplaceAll(q, "${", "$${")
+	return strings.ReplaceAll(q, "%{", "%%{")
 }
 
 func formatter(name string) migrate.Formatter {
@@ -231,6 +270,17 @@ func planFor(cs Case) (*migrate.Plan, error) {
 		from, to = build(cs.Dialect, nil), build(cs.Dialect, cs.Feats)
 	case "unmodify":
 		from, to = build(cs.Dialect, cs.Feats), build(cs.Dialect, nil)
+	case "alter":
+		// the hostile objects exist on both sides and are modified in place (ModifyTable paths)
+		from, to = build(cs.Dialect, cs.Feats), build(cs.Dialect, cs.Feats)
+		t1 := to.Tables[0]
+		t1.AddColumns(schema.NewNullIntColumn("extra_col", t1.Columns[0].Type.Raw))
+		t1.Columns[len(t1.Columns)-1].Type.Type = t1.Columns[0].Type.Type
+		t1.Indexes = nil
+		t1.AddChecks(schema.NewCheck().SetName("ck_extra").SetExpr("id <> 7"))
+		for _, c := range t1.Columns {
+			c.Indexes = nil
+		}
 	}
 	changes, err := d.diff.SchemaDiff(from, to, schema.DiffNormalized())
 	if err != nil {
@@ -460,7 +510,15 @@ func rootCause(cs Case) string {
 		return false
 	}
 	has := func(sub string) func(string) bool { return func(x string) bool { return strings.Contains(x, sub) } }
+	btName := false
+	for _, f := range cs.Feats {
+		if f.Name == "bt" && (f.Place == "table-name" || f.Place == "column-name") {
+			btName = true
+		}
+	}
 	switch {
+	case cs.Dialect == "sqlite" && btName && any(cmds, has("INSERT INTO `new_")):
+		return "sqlite-rebuild-copy-writes-backtick-name-unquoted"
 	case cs.Dialect == "mysql" && len(cs.Feats) == 1 && cs.Feats[0].Place == "enum-value" && any(cmds, has("enum(")):
 		return "mysql-enum-value-not-escaped"
 	case rk == "liquibase" && any(revs, has("\n")):
@@ -548,7 +606,7 @@ func run(c *rt.Ctx) {
 				for _, f := range formatters {
 					cases = append(cases, Case{Dialect: d, Feats: fe, Scenario: "create", Formatter: f})
 				}
-				for _, sc := range []string{"drop", "modify", "unmodify"} {
+				for _, sc := range []string{"drop", "modify", "unmodify", "alter"} {
 					cases = append(cases, Case{Dialect: d, Feats: fe, Scenario: sc, Formatter: "atlas", Indent: "  "})
 				}
 			}
@@ -568,7 +626,7 @@ func run(c *rt.Ctx) {
 			used[p] = true
 			fe = append(fe, Feat{Place: p, Name: hn[r.IntN(len(hn))]})
 		}
-		cs := Case{Dialect: d, Feats: fe, Scenario: []string{"create", "drop", "modify", "unmodify"}[r.IntN(4)], Formatter: formatters[r.IntN(len(formatters))], Indent: []string{"", "  ", "\t"}[r.IntN(3)]}
+		cs := Case{Dialect: d, Feats: fe, Scenario: []string{"create", "drop", "modify", "unmodify", "alter"}[r.IntN(5)], Formatter: formatters[r.IntN(len(formatters))], Indent: []string{"", "  ", "\t"}[r.IntN(3)]}
 		if cs.Formatter == "atlas" && r.IntN(4) == 0 {
 			cs.Delim = []string{"\n\n", "$$", "-- end"}[r.IntN(3)]
 		}
@@ -576,6 +634,7 @@ func run(c *rt.Ctx) {
 	}
 	c.Par(len(cases), func(i int, w *rt.W) { evalCase(c, w, cases[i], i) })
 	importLeg(c)
+	thirdParty(c)
 	c.Finish("plans of the real planners (create / drop / modify / un-modify) over a two-table schema carrying hostile strings (quotes, semicolons, comment markers, backslashes, newlines, dollar tags, BEGIN/END/DELIMITER/GO words, non-ASCII …) as table/column/index/FK/check names, defaults, comments, check and predicate literals and enum values — the full single-feature matrix plus seeded compound cases — × formatters {atlas, golang-migrate, goose, flyway, liquibase, dbmate} × indent × custom delimiters (atlas format); written into a real directory, read back through the matching sqltool/LocalDir reader with migrate.FileStmtDecls(dialect driver); statements must equal the planned Cmds (count, order, text) and collected comments must be comments; `atlas migrate import` must preserve the source reader's statement sequence. Failures are shrunk to a minimal feature set; key = dialect|reader kind|placement kind:feature. distinct = distinct written files with ≥ 1 hostile feature",
 		map[string]any{"hostile_strings": len(hostile), "placements": len(placements)})
 }
